@@ -15,13 +15,14 @@ inductive NEx
   | hopeful          -- len(C.hopeful())
   | seatsLeft        -- E.seatsLeftToFill()
   | nSeats           -- self.nSeats
-  | elected          -- len(self.C.elected())
+  | elected          -- len(self.C.elected()) / len(self.elected)
+  | eligible         -- len(self.C.eligible())
   | lit (n : Int)
   | sub (a b : NEx)
 deriving DecidableEq, Repr
 
 inductive GEx
-  | gt (a b : NEx) | le (a b : NEx)
+  | gt (a b : NEx) | le (a b : NEx) | lt (a b : NEx) | eq (a b : NEx)
   | and (a b : GEx) | or (a b : GEx)
 deriving DecidableEq, Repr
 
@@ -39,12 +40,15 @@ def NEx.eval (s : St α) : NEx → Int
   | .seatsLeft => s.seatsLeft
   | .nSeats => (s.seats : Int)
   | .elected => (s.elected.length : Int)
+  | .eligible => (s.eligible.length : Int)
   | .lit n => n
   | .sub a b => a.eval s - b.eval s
 
 def GEx.eval (s : St α) : GEx → Bool
   | .gt a b => decide (a.eval s > b.eval s)
   | .le a b => decide (a.eval s ≤ b.eval s)
+  | .lt a b => decide (a.eval s < b.eval s)
+  | .eq a b => decide (a.eval s = b.eval s)
   | .and a b => a.eval s && b.eval s
   | .or a b => a.eval s || b.eval s
 
@@ -86,5 +90,18 @@ theorem batchDefeatGroups_uses_program [CommRing α] [LinearOrder α] [IsStrictO
 def seatsLeftProg : NEx := .sub .nSeats .elected
 
 theorem seatsLeft_is_program (s : St α) : s.seatsLeft = seatsLeftProg.eval s := rfl
+
+/-- election.py `postCheck()`: `nElected == self.nSeats or nElected < self.nSeats and nElected == nEligible` -/
+def postCheckProg : GEx := .or (.eq .elected .nSeats) (.and (.lt .elected .nSeats) (.eq .elected .eligible))
+
+/-- the test the driver applies to the state a count returns (`finish`: anything else is the implementation's `AssertionError`) is the
+    translated assertion -/
+theorem postCheck_is_program (s : St α) :
+    (s.elected.length == s.seats || (decide (s.elected.length < s.seats) && s.elected.length == s.eligible.length))
+      = postCheckProg.eval s := by
+  simp only [postCheckProg, GEx.eval, NEx.eval, Nat.cast_inj, Nat.cast_lt]
+  have e : ∀ x y : Nat, (x == y) = decide (x = y) := fun x y => by
+    by_cases h : x = y <;> simp [h]
+  rw [e, e]
 
 end Droop.C01
